@@ -91,6 +91,19 @@ Proof.
     intros j H; try discriminate; inversion H; auto.
 Qed.
 
+(* a log of events on cells that are private to nobody (the containers of a shared domain) satisfies the discipline
+   exactly when nobody writes: this is what the correspondence run decides for the logs of the deterministic
+   scheduler (Corr/C07.v, threads_clean) *)
+Definition nobody (i : nat) (l : loc) : Prop := False.
+Lemma no_writes_sched_ok : forall s, no_writes s = true <-> sched_ok nobody s.
+Proof.
+  intros s. unfold no_writes, sched_ok. rewrite forallb_forall, Forall_forall. split.
+  - intros H te Hte. specialize (H te Hte). destruct te as [i e]; simpl in *. destruct e; simpl; auto.
+    + intros j [].
+    + discriminate.
+  - intros H te Hte. specialize (H te Hte). destruct te as [i e]; simpl in *. destruct e; simpl; auto.
+Qed.
+
 (* ------------------------------------------------------------------ refutations *)
 Definition sh1 : ashape := {| a_pre := 1; a_effs := [(0, 1)]; a_forall := 1 |}.
 Definition only (f15 f16 f17 f18 : bool) : cfg := {| fix15 := f15; fix16 := f16; fix17 := f17; fix18 := f18 |}.
